@@ -1622,7 +1622,8 @@ class Transaction(object):
         r_witness = b''
         for i in self.inputs:
             r += i.prev_txid[::-1] + i.output_n[::-1]
-            if i.witnesses and i.witness_type != 'legacy':
+            if i.witnesses and (i.witness_type != 'legacy' or i.script_type == 'coinbase'):
+                # A coinbase input has a scriptSig and (since segwit) a witness with the witness reserved value
                 r_witness += int_to_varbyteint(len(i.witnesses)) + b''.join([bytes(varstr(w)) for w in i.witnesses])
             else:
                 r_witness += b'\0'
